@@ -508,123 +508,6 @@ GV_ANCHOR(b_env, gv_benv0 + (b_env - gv_benv0));
    `*element += fa*fb` at end(row) - (row - col) lands inside row `row`.  Its loop contracts below are placeholders.
    Preconditions the code does not check: graph->nodes() == sm->columns() == ordering size (min_neighbour is indexed by
    node), adjacency entries and permutation values in [1, n]. */
-//@ contract Envelope_set_sparse
-__CPROVER_requires(__CPROVER_rw_ok(self, sizeof(struct Envelope)))
-__CPROVER_requires((self->diag_ == NULL || __CPROVER_is_freeable(self->diag_)) &&
-                   (self->env_ == NULL || __CPROVER_is_freeable(self->env_)) &&
-                   (self->xenv_ == NULL || __CPROVER_is_freeable(self->xenv_)))
-__CPROVER_requires(__CPROVER_r_ok(sm, sizeof(struct GvSM)) && __CPROVER_r_ok(graph, sizeof(struct GvGraph)) && __CPROVER_r_ok(ordering, sizeof(struct GvOrd)))
-__CPROVER_requires(0 <= sm->cols_ && sm->cols_ <= MAXSD && 0 <= sm->rows_ && sm->rows_ <= MAXDIM)
-__CPROVER_requires(graph->nodes_ == sm->cols_ && ordering->n == sm->cols_)
-__CPROVER_requires(0 <= graph->gv_nadj && graph->gv_nadj <= MAXENV && __CPROVER_r_ok(graph->adjncy, graph->gv_nadj * sizeof(Index)) &&
-                   __CPROVER_r_ok(graph->xadj, ((long)graph->nodes_ + 2) * sizeof(Index)))
-__CPROVER_requires(__CPROVER_r_ok(ordering->perm, ((long)ordering->n + 1) * sizeof(Index)) && __CPROVER_r_ok(ordering->invp, ((long)ordering->n + 1) * sizeof(Index)))
-__CPROVER_requires(__CPROVER_rw_ok(gv_cum, ((long)sm->cols_ + 1) * sizeof(long)))
-__CPROVER_assigns(self->dim_, self->defect_, self->diag_, self->env_, self->xenv_, self->gv_env_size, gv_mn, __CPROVER_object_whole(gv_cum))
-__CPROVER_frees(self->diag_, self->env_, self->xenv_)
-__CPROVER_ensures(self->dim_ == sm->cols_ && self->defect_ == 0)
-__CPROVER_ensures(self->dim_ == 0 ==> (self->diag_ == NULL && self->env_ == NULL && self->xenv_ == NULL))
-__CPROVER_ensures(self->dim_ > 0 ==> (WF_SHAPE(self) && WF_ENDS(self)))
-__CPROVER_ensures(self->dim_ > 0 ==> (__CPROVER_is_freeable(self->diag_) && __CPROVER_is_freeable(self->xenv_) && __CPROVER_is_freeable(self->env_)))
-__CPROVER_ensures(self->dim_ > 0 ==> (gv_cum[0] == 0 && gv_cum[self->dim_] == self->gv_env_size))
-__CPROVER_ensures(ROW_IN(self, gv_k0) ==> (SAME(self->xenv_[gv_k0], self->env_) && OFF(self->xenv_[gv_k0]) == FSZ * gv_cum[gv_k0 - 1] &&
-                                           SAME(self->xenv_[gv_k0 + 1], self->env_) && OFF(self->xenv_[gv_k0 + 1]) == FSZ * gv_cum[gv_k0]))
-__CPROVER_ensures(ROW_IN(self, gv_k0) ==> WF_ROW(self, gv_k0))
-//@ entry Envelope_set_sparse
-GV_CANARY("Envelope_set_sparse entry");
-//@ at Envelope_set_sparse mn
-#include "ghost_begin.h"
-gv_mn = min_neighbour;
-#include "ghost_end.h"
-//@ loop Envelope_set_sparse 1
-__CPROVER_assigns(i, __CPROVER_object_whole(gv_mn))
-__CPROVER_loop_invariant(1 <= i && i <= self->dim_ + 1 && ((1 <= gv_k0 && gv_k0 < i) ==> gv_mn[gv_k0] == gv_k0))
-__CPROVER_decreases((long)self->dim_ + 1 - i)
-//@ loop Envelope_set_sparse 2
-__CPROVER_assigns(node, __CPROVER_object_whole(gv_mn))
-__CPROVER_loop_invariant(1 <= node && node <= self->dim_ + 1 &&
-                         ((1 <= gv_k0 && gv_k0 <= self->dim_) ==> (1 <= gv_mn[gv_k0] && gv_mn[gv_k0] <= gv_k0)))
-__CPROVER_decreases((long)self->dim_ + 1 - node)
-//@ head Envelope_set_sparse 2
-#include "ghost_begin.h"
-GV_INST(1 <= node && node <= ordering->n, O_PERM(ordering, node));
-GV_INST(1 <= ordering->perm[node] && ordering->perm[node] <= graph->nodes_, G_ROW(graph, ordering->perm[node]));
-GV_INST_EST(1 <= node && node <= self->dim_, 1 <= gv_mn[node] && gv_mn[node] <= node);
-#include "ghost_end.h"
-//@ loop Envelope_set_sparse 3
-__CPROVER_assigns(b, __CPROVER_object_whole(gv_mn))
-__CPROVER_loop_invariant(SAME(b, e) && SAME(b, graph->adjncy) && OFF(graph->adjncy) + ISZ * graph->xadj[i] <= OFF(b) && OFF(b) <= OFF(e) &&
-                         ((OFF(e) - OFF(b)) & 3) == 0 && 1 <= gv_mn[node] && gv_mn[node] <= node &&
-                         ((1 <= gv_k0 && gv_k0 <= self->dim_) ==> (1 <= gv_mn[gv_k0] && gv_mn[gv_k0] <= gv_k0)))
-__CPROVER_decreases(OFF(e) - OFF(b))
-//@ head Envelope_set_sparse 3
-#include "ghost_begin.h"
-GV_ANCHOR(b, e - (e - b));
-GV_INST(0 <= b - graph->adjncy && b - graph->adjncy < graph->gv_nadj, G_ENT(graph, b - graph->adjncy));
-GV_INST(1 <= *b && *b <= ordering->n, O_INVP(ordering, *b));
-#include "ghost_end.h"
-//@ pre Envelope_set_sparse 4
-#include "ghost_begin.h"
-/* forall-introduction for the band bounds (gv_mn is in no assigns clause from here to its delete[]) */
-__CPROVER_assert((1 <= gv_k0 && gv_k0 <= self->dim_) ==> (1 <= gv_mn[gv_k0] && gv_mn[gv_k0] <= gv_k0), "established: 1 <= min_neighbour[gv_k0] <= gv_k0");
-gv_cum[0] = 0;
-#include "ghost_end.h"
-//@ loop Envelope_set_sparse 4
-__CPROVER_assigns(i, env_size, __CPROVER_object_whole(gv_cum))
-__CPROVER_loop_invariant(1 <= i && i <= self->dim_ + 1 && 0 <= env_size && env_size <= ((long)i - 1) * (MAXSD - 1) &&
-                         gv_cum[0] == 0 && gv_cum[i - 1] == env_size &&
-                         ((1 <= gv_k0 && gv_k0 < i) ==> CUMDEF(gv_k0, env_size)))
-__CPROVER_decreases((long)self->dim_ + 1 - i)
-//@ head Envelope_set_sparse 4
-#include "ghost_begin.h"
-GV_INST_EST(1 <= i && i <= self->dim_, 1 <= gv_mn[i] && gv_mn[i] <= i);
-#include "ghost_end.h"
-//@ tail Envelope_set_sparse 4
-#include "ghost_begin.h"
-gv_cum[i] = env_size;
-#include "ghost_end.h"
-//@ at Envelope_set_sparse gvsize
-#include "ghost_begin.h"
-__CPROVER_assert((1 <= gv_k0 && gv_k0 <= self->dim_) ==> CUMDEF(gv_k0, env_size),
-                 "established: gv_cum[gv_k0] is the prefix sum of the band widths");
-GV_SET_ENV_SIZE(self, env_size);
-#include "ghost_end.h"
-//@ loop Envelope_set_sparse 5
-__CPROVER_assigns(i, e, __CPROVER_object_whole(self->xenv_))
-__CPROVER_loop_invariant(1 <= i && i <= self->dim_ + 1 && 0 <= gv_cum[i - 1] && gv_cum[i - 1] <= env_size && SAME(e, self->env_) && OFF(e) == FSZ * gv_cum[i - 1] &&
-                         (1 < i ==> (SAME(self->xenv_[1], self->env_) && OFF(self->xenv_[1]) == 0 && SAME(self->xenv_[i], self->env_) && OFF(self->xenv_[i]) == FSZ * gv_cum[i - 1])) &&
-                         ((1 <= gv_k0 && gv_k0 < i) ==> (CUMDEF(gv_k0, env_size) && SAME(self->xenv_[gv_k0], self->env_) && OFF(self->xenv_[gv_k0]) == FSZ * gv_cum[gv_k0 - 1] &&
-                                                         SAME(self->xenv_[gv_k0 + 1], self->env_) && OFF(self->xenv_[gv_k0 + 1]) == FSZ * gv_cum[gv_k0])))
-__CPROVER_decreases((long)self->dim_ + 1 - i)
-//@ head Envelope_set_sparse 5
-#include "ghost_begin.h"
-GV_INST_EST(1 <= i && i <= self->dim_, CUMDEF(i, env_size));
-#include "ghost_end.h"
-//@ loop Envelope_set_sparse 6
-__CPROVER_assigns(i, __CPROVER_object_whole(self->diag_))
-__CPROVER_loop_invariant(0 <= i && i <= self->dim_)
-__CPROVER_decreases((long)self->dim_ - i)
-//@ loop Envelope_set_sparse 7
-__CPROVER_assigns(i, __CPROVER_object_whole(self->env_))
-__CPROVER_loop_invariant(0 <= i && i <= env_size)
-__CPROVER_decreases((long)env_size - i)
-//@ loop Envelope_set_sparse 8
-__CPROVER_assigns(r, __CPROVER_object_whole(self->diag_), __CPROVER_object_whole(self->env_), __CPROVER_object_whole(a), __CPROVER_object_whole(c))
-__CPROVER_loop_invariant(1 <= r && r <= sm->rows_ + 1)
-__CPROVER_decreases((long)sm->rows_ + 1 - r)
-//@ head Envelope_set_sparse 8
-#include "ghost_begin.h"
-__CPROVER_assume(0);   /* GV_CUT: the accumulation nest is NOT verified by this unit (see the block comment) */
-#include "ghost_end.h"
-//@ loop Envelope_set_sparse 9
-__CPROVER_assigns(b, n, count, __CPROVER_object_whole(a), __CPROVER_object_whole(c))
-__CPROVER_loop_invariant(1)
-//@ loop Envelope_set_sparse 10
-__CPROVER_assigns(i, __CPROVER_object_whole(self->diag_), __CPROVER_object_whole(self->env_))
-__CPROVER_loop_invariant(1)
-//@ loop Envelope_set_sparse 11
-__CPROVER_assigns(j, __CPROVER_object_whole(self->env_))
-__CPROVER_loop_invariant(1)
 //@ end
 
 //@ harness
